@@ -45,10 +45,12 @@ fn main() {
         ("search", "C02") => c02::search(seed, n),
         ("search", "C03") => c03::search(seed, n),
         ("search", "C07") => c07::search(seed, n),
+        ("corr", "C07") => c07::corr(seed, n),
         ("search", "C11") => c11::search(seed, n),
         ("search", "C12") => c12::search(seed, n),
         ("search", "C14") => c14::search(seed, n),
         ("search", "C16") => c16::search(seed, n),
+        ("corr", "C16") => c16::corr(seed, n),
         ("search", "C08") => c08::search(seed, n),
         ("search", "C09") => c09::search(seed, n),
         ("search", "C10") => c10::search(seed, n),
